@@ -12,7 +12,7 @@ names=("$@"); [ ${#names[@]} -eq 0 ] && names=($(ls "$VERIF/seeded"))
 git -C /repo worktree remove --force "$WT" 2>/dev/null; rm -rf "$WT"
 git -C /repo worktree add -q --detach "$WT" HEAD || exit 2
 rm -rf "$VCOPY"; mkdir -p "$VCOPY"
-rsync -a --exclude build --exclude .git --exclude replays --exclude evidence "$VERIF/" "$VCOPY/"; mkdir -p "$VCOPY/replays" "$VCOPY/evidence"
+git -C "$VERIF" archive HEAD | tar -x -C "$VCOPY"; rm -rf "$VCOPY/replays" "$VCOPY/evidence"; mkdir -p "$VCOPY/replays" "$VCOPY/evidence"  # the committed state
 for n in "${names[@]}"; do
     d="$VERIF/seeded/$n"; [ -f "$d/patch.diff" ] || continue
     prop=${n%%-*}
